@@ -18,6 +18,12 @@ strings.  Allowed outcomes per entry point, from the documentation:
   snep-srv /   arbitrary byte streams over a valid LLCP connection to
   snep-cli /   SnepServer, SnepClient, HandoverServer, HandoverClient
   ho-srv / ho-cli                           -> documented results / errors
+  overrun      a reactive raw NFC-DEP peer accepts the data link connection
+               the DUT opens as a CLIENT (socket.connect, HandoverClient,
+               SnepClient) and then overruns the announced receive window:
+               runs of in-sequence I PDUs beyond RW, singly and aggregated,
+               while the application receives at a generated pace
+                                            -> documented results / errors
   t3emu        commands into Type3TagEmulation.process_command and through
                connect(card=...)            -> bytes or None, connect returns
 
@@ -967,6 +973,296 @@ def run_stream(case, ctx):
     ctx.note({"result": repr(out.get("r"))[:80]})
 
 
+# ------------------------------------------------------------ leg: overrun
+HS_PARTS = (b"\x91\x02\x0aHs\x12\xd1\x02\x04ac\x01\x01\x30\x00",
+            b"\x5a\x03", b"\x01a/b0")
+
+
+def overrun_message(app, size):
+    """what a conforming server would send to that application"""
+    pay = bytes((i * 7 + 1) & 0xFF for i in range(size))
+    if app in ("ho-octets", "ho-records"):
+        return HS_PARTS[0] + HS_PARTS[1] + bytes([size]) + HS_PARTS[2] + pay
+    if app == "snep-get":
+        rec = b"\xd2\x03" + bytes([size]) + b"a/b" + pay
+        return struct.pack(">BBL", 0x10, 0x81, len(rec)) + rec
+    if app == "snep-put":
+        return b"\x10\x81\x00\x00\x00\x00"
+    return pay or b"\x00"
+
+
+# time the peer takes for one exchange.  With a latency > 0 the application
+# can consume a PDU while the link thread waits for the next frame; a peer
+# that then refills the window before it has seen an acknowledgement made
+# recv() raise RuntimeError (fixed in /repo 7743c76, reproducer in
+# known_findings.json: C07-i-pdu-beyond-receive-window).
+LAGS = [0, 0, 0.0005, 0.003, 0.02]
+
+
+@st.composite
+def overrun_case(draw):
+    app = draw(st.sampled_from(["sock", "sock", "sock", "ho-octets",
+                                "ho-records", "snep-get", "snep-put"]))
+    rw = 1 if app.startswith("snep") else draw(st.integers(0, 4))
+    steps = []
+    for _ in range(draw(st.integers(1, 5))):
+        k = draw(st.sampled_from(["burst", "burst", "burst", "symm", "ack"]))
+        if k == "burst":
+            steps.append(["burst", draw(st.one_of(
+                st.integers(1, rw + 3), st.integers(rw, rw + 2))),
+                draw(st.booleans())])
+        elif k == "symm":
+            steps.append(["symm", draw(st.integers(1, 3)), False])
+        else:
+            steps.append([draw(st.sampled_from(["rr", "rr", "rnr"])), 1,
+                          False])
+    nops = draw(st.integers(1, 8))
+    return {"app": app, "rw": rw, "steps": steps,
+            "cc_with": draw(st.booleans()),
+            "by_name": draw(st.booleans()),
+            "size": draw(st.integers(0, 90)),
+            "pieces": draw(st.integers(1, 6)),
+            "ops": [[draw(st.sampled_from(["recv", "recv", "recv", "send"])),
+                     draw(st.sampled_from([0, 0, 0, 0.0005, 0.002, 0.02,
+                                           0.2]))] for _ in range(nops)],
+            "peer_rw": draw(st.integers(1, 3)),
+            "lag": draw(st.sampled_from(LAGS)),
+            "dut_agf": draw(st.booleans()),
+            "role": draw(st.sampled_from(["target", "target", "initiator"])),
+            "end": draw(st.sampled_from(["disc", "silence"])),
+            "choices": draw(st.lists(st.integers(0, 3), max_size=8)),
+            "seed": draw(st.integers(0, 255))}
+
+
+def overrun_class(case):
+    """one-frame: every I PDU of the case arrives in one frame (a single run,
+    aggregated or of length 1), exchanges take no time and no thread is
+    preempted (empty choice list: a thread runs until it blocks), so the
+    application cannot consume anything between the PDUs of the run and the
+    DUT has no acknowledgement pending; ack-race: the runs are spread over
+    frames or threads are preempted, so what the application has consumed
+    but the link thread has not yet acknowledged when the next PDU arrives
+    matters"""
+    bursts = [s for s in case["steps"] if s[0] == "burst"]
+    if len(bursts) == 1 and (bursts[0][2] or bursts[0][1] <= 1) and \
+            not case["choices"] and not case["lag"]:
+        return "overrun/one-frame"
+    return "overrun/ack-race"
+
+
+def run_overrun(case, ctx):
+    app = case["app"]
+    s = vsched.Sched(case["choices"], seed=case["seed"], step_budget=400000)
+    vsched.activate(s)
+    air = simdev.Air()
+    dut = simdev.frontend(air, "dut")
+    peer = simdev.frontend(air, "peer")
+    out, stats = {}, {"i_sent": 0, "max_run": 0, "recvd": 0, "connected": 0}
+    msg = overrun_message(app, case["size"])
+    n = max(1, min(case["pieces"], len(msg)))
+    cuts = [len(msg) * k // n for k in range(n + 1)]
+    pieces = [msg[cuts[k]:cuts[k + 1]] for k in range(n)]
+    request = b"\x91\x02\x0aHr\x12\x91\x02\x02cr\x00\x01\x51\x02\x04ac\x01" \
+        b"\x01\x30\x00\x5a\x03\x02\x01a/b0xy"
+    try:
+        def application(llc):
+            try:
+                if app == "sock":
+                    sk = nfc.llcp.Socket(llc, nfc.llcp.DATA_LINK_CONNECTION)
+                    sk.setsockopt(nfc.llcp.SO_RCVBUF, case["rw"])
+                    try:
+                        sk.connect("urn:nfc:sn:peer" if case["by_name"]
+                                   else 35)
+                        stats["connected"] += 1
+                        for op, pause in case["ops"]:
+                            if pause:
+                                s.sleep(pause)
+                            if op == "send":
+                                if not sk.send(b"hi"):
+                                    break
+                            else:
+                                if sk.recv() is None:
+                                    break
+                                stats["recvd"] += 1
+                    finally:
+                        sk.close()
+                elif app.startswith("ho"):
+                    c = nfc.handover.HandoverClient(llc)
+                    c.connect(recv_miu=128, recv_buf=case["rw"])
+                    stats["connected"] += 1
+                    c.send_octets(request)
+                    if app == "ho-octets":
+                        out["r"] = c.recv_octets(timeout=1.0)
+                    else:
+                        out["r"] = c.recv_records(timeout=1.0)
+                    c.close()
+                else:
+                    c = nfc.snep.SnepClient(llc, 1000)
+                    c.connect("urn:nfc:sn:snep")
+                    stats["connected"] += 1
+                    if app == "snep-put":
+                        out["r"] = c.put_octets(b"\xd1\x01\x03T\x02en" * 30)
+                    else:
+                        out["r"] = c.get_octets(b"\xd0\x00\x00", timeout=1.0)
+                    c.close()
+            except nfc.snep.SnepError as e:
+                out["r"] = ("SnepError", e.errno)
+            except nfc.llcp.Error as e:
+                out["r"] = ("llcp.Error", e.errno)
+            except (vsched.Abort, vsched.StepBudget):
+                raise
+            except BaseException as e:
+                out["exc"] = e
+
+        def dut_thread():
+            try:
+                out["ret"] = dut.connect(llcp={
+                    "role": case["role"], "miu": 248, "lto": 100,
+                    "agf": case["dut_agf"], "brs": 0,
+                    "on-connect": lambda llc: s.spawn(
+                        lambda: application(llc), "dut:app") and True})
+            except (vsched.Abort, vsched.StepBudget):
+                raise
+            except BaseException as e:
+                out["exc-connect"] = e
+            out["done"] = True
+
+        def reactive_peer(exchange, rcvd=None):
+            """exchange(frame) -> the DUT's next frame or None; rcvd is what
+            the DUT has sent already (it speaks first as initiator)"""
+            conn = {}
+            todo = []           # frames still to send: lists of PDU sketches
+            ns = [0]
+
+            def build(frame):
+                pdus = []
+                for kind in frame:
+                    p = {"dsap": conn["dut"], "ssap": conn["me"]}
+                    if kind == "cc":
+                        p.update(type="CC", miu=128, rw=case["peer_rw"])
+                    elif kind == "i":
+                        k = stats["i_sent"]
+                        stats["i_sent"] += 1
+                        p.update(type="I", ns=ns[0], nr=conn["nr"],
+                                 data=pieces[k] if k < len(pieces) else b"+")
+                        ns[0] = (ns[0] + 1) % 16
+                    elif kind in ("rr", "rnr"):
+                        p.update(type=kind.upper(), nr=conn["nr"])
+                    else:
+                        p.update(type="DM", reason=0)
+                    pdus.append(p)
+                if not pdus:
+                    return b"\x00\x00"
+                if len(pdus) == 1:
+                    return ref_llcp.encode(pdus[0])
+                return ref_llcp.encode({"type": "AGF", "dsap": 0, "ssap": 0,
+                                        "pdus": pdus})
+
+            def react(r):
+                try:
+                    p = ref_llcp.decode(bytes(r))
+                except ref_llcp.RefReject:
+                    return
+                for q in p["pdus"] if p["type"] == "AGF" else [p]:
+                    if q["type"] == "CONNECT" and not conn:
+                        conn.update(dut=q["ssap"], nr=0, me=q["dsap"]
+                                    if q["dsap"] != 1 else 20)
+                        todo.append(["cc"])
+                        for kind, k, agf in case["steps"]:
+                            if kind == "burst":
+                                stats["max_run"] = max(stats["max_run"], k)
+                                if agf:
+                                    todo.append(["i"] * k)
+                                else:
+                                    todo.extend(["i"] for _ in range(k))
+                            elif kind == "symm":
+                                todo.extend([] for _ in range(k))
+                            else:
+                                todo.append([kind])
+                        if case["cc_with"] and len(todo) > 1:
+                            todo[0:2] = [todo[0] + todo[1]]
+                    elif q["type"] == "I" and conn:
+                        conn["nr"] = (q["ns"] + 1) % 16
+                    elif q["type"] == "DISC" and conn:
+                        todo.insert(0, ["dm"])
+            idle = 0
+            if rcvd is not None:
+                react(rcvd)
+            for _ in range(80):
+                if case["lag"]:
+                    s.sleep(case["lag"])    # the time a real exchange takes
+                r = exchange(build(todo.pop(0)) if todo else b"\x00\x00")
+                if r is None:
+                    return False
+                react(r)
+                if conn and not todo:
+                    idle += 1
+                    if idle > 4:
+                        return True
+            return True
+
+        def peer_thread():
+            try:
+                if case["role"] == "target":
+                    mac = nfc.dep.Initiator(peer)
+                    if mac.activate(gbi=GB_OK, brs=0, acm=False) is None:
+                        return
+                    if reactive_peer(lambda f: mac.exchange(f, 1.0)) and \
+                            case["end"] == "disc":
+                        mac.exchange(b"\x01\x40", 1.0)
+                        mac.deactivate(release=False)
+                else:
+                    mac = nfc.dep.Target(peer)
+                    if mac.activate(timeout=2.0, gbt=GB_OK) is None:
+                        return
+                    first = mac.exchange(None, 1.0)
+                    if first is not None and reactive_peer(
+                            lambda f: mac.exchange(f, 1.0), first) and \
+                            case["end"] == "disc":
+                        mac.exchange(b"\x01\x40", 1.0)
+            except nfc.clf.CommunicationError:
+                pass
+        s.spawn(dut_thread, "dut:connect")
+        s.spawn(peer_thread, "peer")
+        s.run_until(lambda: out.get("done"), 60.0)
+        s.sleep(3.0)
+        s.settle()
+        blocked = [repr(t) for t in s.blocked() if t.name.startswith("dut")]
+        alive = [t.name for t in s.alive() if t.name.startswith("dut")]
+        failures = [(n, e) for n, e in s.failures()]
+        deadlock = s.deadlock
+    except vsched.StepBudget:
+        raise Violation("livelock", "step budget exhausted")
+    finally:
+        s.shutdown()
+        vsched.activate(None)
+    ctx.set_class(overrun_class(case))
+    if "exc-connect" in out:
+        raise unexpected(out["exc-connect"], "connect-raises")
+    if "exc" in out:
+        raise unexpected(out["exc"], "client-raises", detail="%s rw=%d: %r" % (
+            app, case["rw"], case["steps"]))
+    for n, e in failures:
+        if n != "peer":
+            raise unexpected(e, "thread-died", detail=n)
+        raise e     # the harness' own peer must not fail
+    if not out.get("done"):
+        raise Violation("connect-did-not-return",
+                        "blocked %r deadlock %r" % (blocked, deadlock))
+    if alive:
+        raise Violation("thread-left-blocked", "%r %r" % (alive, blocked))
+    ctx.label("app:" + app)
+    if stats["connected"]:
+        ctx.label("connected")
+        if stats["max_run"] > max(case["rw"], 0) and \
+                stats["i_sent"] > case["rw"]:
+            ctx.label("window-overrun")
+            ctx.nontrivial()
+    ctx.note({"app": app, "rw": case["rw"], "i_pdus_sent": stats["i_sent"],
+              "received": stats["recvd"], "result": repr(out.get("r"))[:60],
+              "ret": repr(out.get("ret"))})
+
+
 # --------------------------------------------------------------- leg: card
 class ReaderDev(ScriptDev):
     def __init__(self, first, frames):
@@ -1091,6 +1387,23 @@ LEGS = [
              "connecting/established, SNEP server, SDP), aggregated, mutated "
              "or random - into a running connect(llcp=...); non-trivial = at "
              "least two frames were answered."),
+    Leg("overrun", run=run_overrun, gen=lambda tier: overrun_case(),
+        quick=600, thorough=20000, shards_quick=8, shards_thorough=16,
+        nt_floor=0.2,
+        rule="the DUT (target or initiator of a running connect(llcp=...)) "
+             "opens a data link connection as a client - socket.connect() by "
+             "SAP or by name with receive window 0..4 and a generated list "
+             "of recv()/send() calls with pauses of 0..200 ms, HandoverClient "
+             "(recv_octets / recv_records, window 0..4) or SnepClient (put / "
+             "get, window 1).  A reactive raw NFC-DEP peer answers CONNECT "
+             "with CC (alone or in one AGF with what follows) and plays 1..5 "
+             "steps: runs of 1..RW+3 in-sequence I PDUs (one per frame or "
+             "all in one AGF frame) that carry a well-formed answer cut into "
+             "1..6 pieces and filler afterwards, SYMM, RR/RNR; it never "
+             "waits for the DUT's acknowledgements.  Ends with DISC or "
+             "silence; generated schedule choices.  non-trivial = the "
+             "connection was established and a run longer than the DUT's "
+             "receive window was sent."),
     Leg("snep-srv", run=run_stream, gen=lambda tier: stream_strategy(
         "snep-srv"), quick=250, thorough=10000, shards_quick=6,
         shards_thorough=16, nt_floor=0.3,
